@@ -7,6 +7,7 @@ package main
 // per-call bookkeeping, never the persistent state of the codec.
 
 import (
+	"go/constant"
 	"go/token"
 	"go/types"
 	"strings"
@@ -43,8 +44,21 @@ func perCallWeb(fn *ssa.Function) map[ssa.Value]bool {
 				web[v] = true
 				add(x.X)
 			}
+			if x.Op == token.ADD {
+				if _, isC := constInt(x.Y); !isC {
+					// n + m of two counts
+					web[v] = true
+					add(x.X)
+					add(x.Y)
+				}
+			}
 		case *ssa.Extract:
 			if call, ok := x.Tuple.(*ssa.Call); ok && callName(&call.Call) == "bytes.Buffer.Read" && x.Index == 0 {
+				web[v] = true
+			}
+		case *ssa.Call:
+			// a bulk transfer counts as many bytes as this call happened to be given
+			if callName(&x.Call) == "builtin.copy" {
 				web[v] = true
 			}
 		}
@@ -64,6 +78,8 @@ func checkC06(c *Ctx, r *Report) {
 	pr := newProver(c)
 	// ---- C06-percall
 	percallRule(c, r, "C06-percall")
+	mirrorRule(c, r, "C06-mirror")
+	codeWidthRule(c, r, pr, "C06-codewidth")
 	// ---- C06-consumed
 	r.Rule("C06-consumed", 1, "Write consumes all input")
 	if fn := c.Func(pkg, "(*Writer).Write"); fn != nil {
@@ -300,4 +316,231 @@ func percallRule(c *Ctx, r *Report, rule string) {
 			o.Bad("the per-call counter flows into codec state or a call at %s: the effect of the call then depends on how the caller split its data (e.g. a first Write shorter than the lookahead followed by another)", leak)
 		}
 	}
+}
+
+// mirrorRule: the first F-1 bytes of the ring buffer are mirrored behind its end so that a string
+// starting near the end can be compared without wrapping: text_buf[s+N] = c exactly when s < F-1
+// (LZHUF.C, Encode). One slot less and a 60-byte match starting in the last window slot compares
+// against a byte that was never written.
+func mirrorRule(c *Ctx, r *Report, rule string) {
+	r.Rule(rule, 1, "wrap-around mirror of the ring buffer covers F-1 bytes")
+	p := c.Pkg("lzhuf")
+	fn := c.Func("lzhuf", "(*Writer).advance")
+	if fn == nil || p == nil {
+		r.Fail(rule, "anchor lzhuf.(*Writer).advance not found")
+		return
+	}
+	F, okF := constIntOf(p, "_F")
+	N, okN := constIntOf(p, "_N")
+	if !okF || !okN {
+		r.Fail(rule, "constants _F/_N not found")
+		return
+	}
+	found := false
+	eachInstr(fn, func(_ *ssa.BasicBlock, _ int, in ssa.Instruction) {
+		st, ok := in.(*ssa.Store)
+		if !ok {
+			return
+		}
+		ia, ok := st.Addr.(*ssa.IndexAddr)
+		if !ok || !strings.HasSuffix(pathOf(ia.X), ".textBuf") {
+			return
+		}
+		b, ok := ia.Index.(*ssa.BinOp)
+		if !ok || b.Op != token.ADD {
+			return
+		}
+		k, isC := constInt(b.Y)
+		base := b.X
+		if !isC {
+			k, isC = constInt(b.X)
+			base = b.Y
+		}
+		if !isC || k != N {
+			return
+		}
+		found = true
+		o := r.Add(rule, fnName(fn), "mirror store "+c.exprAt(fn, st.Pos()), c.pos(st.Pos()))
+		// the tightest dominating upper bound on the index base
+		bound, has := int64(0), false
+		for _, cd := range condsAt(st.Block()) {
+			cmp, ok := cd.V.(*ssa.BinOp)
+			if !ok || pathOf(cmp.X) != pathOf(base) {
+				continue
+			}
+			kk, isK := constInt(cmp.Y)
+			if !isK {
+				continue
+			}
+			switch {
+			case cmp.Op == token.LSS && cd.Truth:
+				bound, has = kk, true // base < kk
+			case cmp.Op == token.LEQ && cd.Truth:
+				bound, has = kk+1, true
+			case cmp.Op == token.GEQ && !cd.Truth:
+				bound, has = kk, true
+			case cmp.Op == token.GTR && !cd.Truth:
+				bound, has = kk+1, true
+			}
+		}
+		switch {
+		case !has:
+			o.Bad("the mirror store is not guarded by an upper bound on the slot (it would run past the array)")
+		case bound != F-1:
+			o.Bad("the ring buffer's wrap-around mirror is written for slots below %d, LZHUF needs exactly F-1 = %d: a match of full length starting in the last window slots compares against a stale byte and the encoder emits a match the data does not contain (silent corruption, CRC passes)", bound, F-1)
+		default:
+			o.OK("text_buf[s+N] = c exactly for s < F-1 = %d", F-1)
+		}
+	})
+	if !found {
+		r.Add(rule, fnName(fn), "mirror store", c.pos(fn.Pos())).Bad("no store to textBuf[s+N] found in advance (unresolved)")
+	}
+}
+
+// codeWidthRule: a Huffman code is collected leaf-first in an accumulator and handed to putCode in
+// pieces. (a) The accumulator is at least as wide as the deepest leaf the adaptive tree can have:
+// a tree with the sibling property and depth d has total frequency >= Fib(d+2), and the total is
+// capped by _MaxFreq (the tree is rebuilt when the root reaches it). (b) putCode moves at most 16
+// bits per call (its buffer is a 16 bit window): the bit count of every call is proved <= 16.
+func codeWidthRule(c *Ctx, r *Report, pr *prover, rule string) {
+	r.Rule(rule, 2, "Huffman codes of any depth the tree can reach are emitted completely")
+	p := c.Pkg("lzhuf")
+	fn := c.Func("lzhuf", "(*Writer).encodeChar")
+	if fn == nil || p == nil {
+		r.Fail(rule, "anchor lzhuf.(*Writer).encodeChar not found")
+		return
+	}
+	maxFreq, ok := constIntOf(p, "_MaxFreq")
+	if !ok {
+		r.Fail(rule, "constant _MaxFreq not found")
+		return
+	}
+	// deepest possible leaf: largest d with Fib(d+2) <= maxFreq
+	maxDepth := int64(0)
+	{
+		a, b := int64(1), int64(1) // Fib(1), Fib(2)
+		n := int64(2)
+		for b <= maxFreq {
+			a, b = b, a+b
+			n++
+		}
+		// now Fib(n) = b > maxFreq, Fib(n-1) = a <= maxFreq  => d+2 = n-1
+		maxDepth = n - 3
+	}
+	where := fnName(fn)
+	// (a) the bit injected at the top of the accumulator in the leaf-to-root loop
+	width := int64(0)
+	eachInstr(fn, func(_ *ssa.BasicBlock, _ int, in ssa.Instruction) {
+		b, ok := in.(*ssa.BinOp)
+		if !ok || (b.Op != token.ADD && b.Op != token.OR) {
+			return
+		}
+		cst, isC := b.Y.(*ssa.Const)
+		if !isC || cst.Value == nil {
+			return
+		}
+		u, exact := constantUint64(cst)
+		if !exact || u == 0 || u&(u-1) != 0 {
+			return
+		}
+		// a single bit: its position is the effective width, provided the other operand is the
+		// accumulator shifted right by one in the same loop
+		if dependsOn(b.X, func(x ssa.Value) bool {
+			s, ok := x.(*ssa.BinOp)
+			return ok && s.Op == token.SHR
+		}) {
+			w := int64(0)
+			for u != 0 {
+				u >>= 1
+				w++
+			}
+			if w > width {
+				width = w
+			}
+		}
+	})
+	o := r.Add(rule, where, "width of the code accumulator", c.pos(fn.Pos()))
+	switch {
+	case width == 0:
+		o.Bad("could not find the bit injected at the top of the code accumulator (unresolved)")
+	case width < maxDepth:
+		o.Bad("the code is collected in a window of %d bits, but with _MaxFreq = %#x a leaf can be %d levels deep (Fibonacci-like frequencies, e.g. run lengths): the first bits of a longer code are shifted out and the decoder lands on a sibling leaf - one byte changes silently and the CRC still passes", width, maxFreq, maxDepth)
+	default:
+		o.OK("window of %d bits >= deepest possible leaf (%d levels for _MaxFreq = %#x)", width, maxDepth, maxFreq)
+	}
+	// (b) every putCode call in the encoder moves at most 16 bits
+	n := 0
+	for _, f := range c.SrcFuncs("lzhuf") {
+		for _, ci := range callsTo(f, false, "lzhuf.Writer.putCode") {
+			n++
+			l := ci.Common().Args[1]
+			proved := pr.LE(l, false, 0, nil, false, 16, ci)
+			if !proved {
+				// an entry of a constant table that is never written: bounded by its largest entry
+				v := l
+				if cv, ok := v.(*ssa.Convert); ok {
+					v = cv.X
+				}
+				if X, _, ok := loadOfIndex(v); ok {
+					if g, isG := X.(*ssa.Global); isG && !globalWritten(c, g) {
+						if vals, _, _, okT := intTable(p, g.Name()); okT {
+							proved = true
+							for _, e := range vals {
+								if e > 16 {
+									proved = false
+								}
+							}
+						}
+					}
+				}
+			}
+			r.Check(rule, fnName(f), "bits per putCode call: "+c.exprAt(f, ci.Pos()), c.pos(ci.Pos()), proved,
+				"at most 16 bits (proved)", "the number of bits handed to putCode is not proved <= 16: putCode keeps a 16 bit window, bits beyond it are lost")
+		}
+	}
+	if n == 0 {
+		r.Fail(rule, "no call of putCode found")
+	}
+}
+
+func constantUint64(c *ssa.Const) (uint64, bool) {
+	if c.Value == nil || c.Value.Kind() != constant.Int {
+		return 0, false
+	}
+	return constant.Uint64Val(c.Value)
+}
+
+// globalWritten: some instruction of the module stores into the package-level variable (or takes
+// its address for anything but indexing loads).
+func globalWritten(c *Ctx, g *ssa.Global) bool {
+	written := false
+	for _, fn := range c.moduleFuncs() {
+		if fn.Name() == "init" && fn.Pkg == g.Pkg {
+			continue // the initialiser itself
+		}
+		eachInstr(fn, func(_ *ssa.BasicBlock, _ int, in ssa.Instruction) {
+			for _, op := range in.Operands(nil) {
+				if *op != ssa.Value(g) {
+					continue
+				}
+				switch x := in.(type) {
+				case *ssa.IndexAddr:
+					for _, ref := range *x.Referrers() {
+						if st, ok := ref.(*ssa.Store); ok && st.Addr == ssa.Value(x) {
+							written = true
+						}
+						if _, ok := ref.(*ssa.UnOp); !ok {
+							if _, isSt := ref.(*ssa.Store); !isSt {
+								written = true
+							}
+						}
+					}
+				case *ssa.UnOp:
+				default:
+					written = true
+				}
+			}
+		})
+	}
+	return written
 }
